@@ -47,6 +47,16 @@ class SubB(BaseB):
     pass
 
 
+class EqErr(Exception):
+    """distinct exception objects that compare equal"""
+    def __eq__(self, other):
+        return isinstance(other, EqErr)
+
+    def __hash__(self):
+        return 11
+
+
+EXC['EqErr'] = EqErr
 for _c in (BaseA, SubA, BaseB, SubB):
     EXC[_c.__name__] = _c
 EXC['Empty'] = Empty
